@@ -2,7 +2,8 @@
    written (sqlparser's EscapeQuotedString, used by every translator) and read back.  The
    end-to-end half of the property (parse -> relation -> render preserves results) has no model:
    it is decided by executing original and rendered SQL on SQLite. *)
-From QV Require Import Sql.Quote Sql.QuoteProofs.
+From QV Require Import Sql.Quote Sql.QuoteProofs Sql.Parens Sql.ParensProofs Generated.Parens.
+From Coq Require Import String.
 Open Scope N_scope.
 
 (* values without a delimiter right after a backslash or after another delimiter survive *)
@@ -14,6 +15,38 @@ Proof. exact quote_roundtrip_partial. Qed.
 Theorem C08_quote_roundtrip_refuted : exists q s, unquote q (quote q s) <> Some s.
 Proof. exact quote_roundtrip_refuted. Qed.
 
+Open Scope nat_scope.
+(* how expressions are written.  [parens] is regenerated on every run from the translator: each function of
+   the expression language written with compound arguments; no argument is left bare next to an operator
+   (0: between parentheses or the commas of a call, 1: between keywords of CASE / CAST / EXTRACT / SUBSTRING /
+   POSITION) *)
+Theorem C08_operands_delimited :
+  forallb (fun row => let '(_, _, _, classes) := row in forallb (fun c => Nat.ltb c 2) classes) parens = true.
+Proof. vm_compute. reflexivity. Qed.
+
+(* a text in which every operand of an infix, prefix or postfix operator stands between parentheses is read
+   back, by a precedence-climbing parser, to the tree it was written from, whatever the binding powers of the
+   operators are (so in every dialect) *)
+Theorem C08_parenthesised_roundtrip : forall (bl br bpre bpost : nat -> nat) e,
+  parse bl br bpre bpost (need e) 0 (pr e) = Some (e, nil).
+Proof. exact roundtrip. Qed.
+
+(* and not without them: (a) OR (b) IS NULL is read as a OR (b IS NULL); this was the defect repaired by the
+   fix: commits on IS NULL, IN, LIKE *)
+Theorem C08_postfix_operand_needs_parentheses : exists bl br bpre bpost e fuel e',
+  parse bl br bpre bpost fuel 0 (pr_bad e) = Some (e', nil) /\ e' <> e.
+Proof. exact postfix_operand_needs_parentheses. Qed.
+
+(* non-vacuity: NOT ((a) OR ((b) IS NULL)) *)
+Example C08_example_parens :
+  let e := PPre 0 (PBin 1 (PAtom 1) (PPost 2 (PAtom 2))) in
+  parse (fun _ => 3) (fun _ => 4) (fun _ => 9) (fun _ => 1) (need e) 0 (pr e) = Some (e, nil) /\ List.length (pr e) = 13.
+Proof. vm_compute. split; reflexivity. Qed.
+Close Scope nat_scope.
+
 Check C08_quote_roundtrip_partial.
 Print Assumptions C08_quote_roundtrip_partial.
 Print Assumptions C08_quote_roundtrip_refuted.
+Print Assumptions C08_operands_delimited.
+Print Assumptions C08_parenthesised_roundtrip.
+Print Assumptions C08_postfix_operand_needs_parentheses.
